@@ -5,12 +5,12 @@ at every position: as replacement of any node, as extra list element, as extra d
 """
 import copy
 
-from d42 import validate, validate_or_fail
+from d42 import schema, validate, validate_or_fail
 from d42.validation import Formatter, ValidationException, ValidationResult, format_result
 
 from .. import model as M
 from ..codec import src, unsrc
-from ..common import shard_items, short_lived, tname
+from ..common import safe_repr, shard_items, short_lived, tname
 from ..runner import Acc, parallel, parallel_fresh
 from ..terms import show, size, try_build, unique_subterms
 from ..universe import universe
@@ -21,10 +21,11 @@ NWIT = {"quick": 3, "thorough": 8}
 FMT = Formatter()
 
 
-def check_value(s, v):
-    """None, or a short kind string describing how totality failed."""
+def check_value(s, v, **options):
+    """None, or a short kind string describing how totality failed.  `options` are extra keyword
+    arguments of validate() / validate_or_fail() (handed down to nested schemas)."""
     try:
-        res = validate(s, v)
+        res = validate(s, v, **options)
     except Exception as e:  # noqa: BLE001
         return f"validate-raises:{type(e).__name__}"
     if not isinstance(res, ValidationResult):
@@ -44,7 +45,7 @@ def check_value(s, v):
     except Exception as ex:  # noqa: BLE001
         return f"format_result-raises:{type(ex).__name__}"
     try:
-        r = validate_or_fail(s, v)
+        r = validate_or_fail(s, v, **options)
         if r is not True:
             return "validate_or_fail-returned-non-True"
         if errors:
@@ -57,6 +58,44 @@ def check_value(s, v):
     except Exception as ex:  # noqa: BLE001
         return f"validate_or_fail-raises:{type(ex).__name__}"
     return None
+
+
+def options_block(acc):
+    """validate(s, v, **options) against validate_or_fail(s, v, **options) for a user-defined type
+    that interprets an option (mc/fwdtype.StrictInt: mc_strict=True refuses bools), alone and at
+    nested positions, behind aliases and forwarders; the option must decide both the same way."""
+    from .. import fwdtype
+    n = schema.mc_strictint
+    shapes = {
+        "strictint": (n, lambda x: x),
+        "list(strictint)": (schema.list(n), lambda x: [x]),
+        "list([strictint, ...])": (schema.list([n, ...]), lambda x: [x, 1]),
+        "dict{n: strictint}": (schema.dict({"n": n, ...: ...}), lambda x: {"n": x}),
+        "any(none, strictint)": (schema.any(schema.none, n), lambda x: x),
+        "alias(strictint)": (schema.alias("T", n), lambda x: x),
+        "alias(alias(list))": (schema.alias("U", schema.alias("T", schema.list(n))), lambda x: [x]),
+        "fwd(strictint)": (fwdtype.wrap(n), lambda x: x),
+        "fwdkw(dict)": (fwdtype.wrap(schema.dict({"n": n}), "kw"), lambda x: {"n": x}),
+        "dict{k: alias(any)}": (schema.dict({"k": schema.alias("T", schema.any(n, schema.none))}),
+                                lambda x: {"k": x}),
+    }
+    for name, (s, put) in shapes.items():
+        for raw in (True, False, 1, 0, None, "x", 1.0, [True], ZOO[0]):
+            for options in ({}, {"mc_strict": True}, {"mc_strict": False}, {"mc_unused": 1}):
+                v = put(raw)
+                acc.count("validations")
+                acc.count("validations_with_options")
+                kind = check_value(s, v, **options)
+                if kind is None and options.get("mc_strict") and isinstance(raw, bool) \
+                        and not validate(s, v, **options).has_errors():
+                    kind = "option-did-not-reach-the-nested-type"
+                if kind is None and not options.get("mc_strict") and isinstance(raw, int) \
+                        and validate(s, v, **options).has_errors():
+                    kind = "errors-without-the-option"
+                if kind:
+                    acc.violation(f"C08|{kind}|{name}|options={sorted(options)}",
+                                  {"shape": name, "raw": safe_repr(raw), "options": options, "kind": kind,
+                                   "block": "options"})
 
 
 _EXTENDED = []
@@ -191,6 +230,8 @@ def worker(shard, nshards, tier, seed):
                                "zoo_member": src(z), "kind": kind})
         if i % 101 == 0:
             acc.sample({"schema": show(t), "values": len(cases)})
+    if shard == 2 % nshards:
+        options_block(acc)
     # last in the shard: the user registers extensions through the documented `extend=True` route
     # (a formatter with a new public method and PRIVATE helpers of its own, a representor and a
     # schema visitor with new methods); rendering the built-in errors must be unaffected
@@ -257,6 +298,10 @@ def run(tier, seed):
 
 
 def replay(case):
+    if case.get("block") == "options":
+        acc = Acc()
+        options_block(acc)
+        return list(acc.viol)
     t, v = unsrc(case["term"]), unsrc(case["value"])
     s, err = try_build(t)
     if s is None:
